@@ -1,6 +1,7 @@
 (* Membership lemmas for the finite value types: every value is in its enumeration. *)
 From BE Require Import Model.Basics Spec.Domains.
 From Coq Require Import Lia.
+Local Open Scope nat_scope.
 
 Lemma in_all_suits s : In s all_suits. Proof. destruct s; cbn; tauto. Qed.
 Lemma in_all_strains s : In s all_strains. Proof. destruct s as [[]|]; cbn; tauto. Qed.
